@@ -33,7 +33,7 @@
    "av"  normalisation + avar: knots hit their values, identity map, range, F2Dot14 guard
    "eq"  SameOutline: reflexive, start-point independent, blind to zero-length atoms,
          sensitive to a moved point                                                       *)
-EXTENDS GlyfSem, TLC
+EXTENDS GlyfSem, TLC, Json
 CONSTANTS NP, C, DSEL
 DSET == IF DSEL = 1 THEN {-1, 2} ELSE {-1, 0, 1}     \* (TLC configuration files cannot write negative numbers)
 VARIABLES u, phase
@@ -341,6 +341,30 @@ Init ==
      \/ \E g \in 1..4 : \E mi \in 1..3 : \E li \in 0..4 : u = <<"hv", g, mi, li>>
      \/ \E ti \in 1..Len(AvTriples) : \E mi \in 1..Len(AvMaps) : \E ui \in 1..Len(AvUsers) : u = <<"av", ti, mi, ui>>
      \/ \E n \in 1..NP : \E xs \in [1..n -> 0..C] : \E on \in [1..n -> {0, 1}] : \E k \in 1..2 : u = <<"eq", xs, on, k>>
+(* ---- generation (R): the same universes exported as font descriptions; the harness realises
+   each with FontBuilder, reads the bytes back with the independent readers (and requires the
+   description it gets to be this one), draws every glyph with fontTools at the lattice
+   locations and lets Trace_C05 judge.  CpFontGen keeps USE_MY_METRICS consistent (the
+   composite has the flagged component's advance and phantom point 1); the invalid
+   SCALED + UNSCALED combination is not generated. *)
+CpFontGen(c1, c2, dl, um) ==
+  LET F == CpFont(c1, c2, dl) IN
+  IF um = 1 THEN [F EXCEPT !.hmtx[3] = <<F.hmtx[2][1], F.glyphs[3].xMin - (F.glyphs[2].xMin - F.hmtx[2][2])>>] ELSE F
+GenFont(v) ==
+  CASE v[1] = "cp" -> CpFontGen(Comp(1, v[2], v[3], v[4], 0), Comp(2, v[5], v[6], v[7], IF v[8] = 1 THEN USE_MY_METRICS ELSE 0),
+                                <<2 * v[9], v[9]>>, v[8])
+    [] v[1] = "pm" -> PmFont(v[2], v[3], v[4])
+    [] v[1] = "gv" -> GvFont(v[2], v[3], v[4], v[5])
+GenInit ==
+  /\ phase = "gen"
+  /\ \/ \E t1 \in 1..Len(CpTr) : \E o1 \in 1..3 : \E f1 \in 1..3 : \E t2 \in 1..Len(CpTr) : \E o2 \in 1..3 : \E f2 \in 1..3 :
+          \E um \in 0..1 : \E dl \in 0..1 : u = <<"cp", t1, o1, f1, t2, o2, f2, um, dl>>
+     \/ \E ti \in 1..Len(CpTr) : \E a1 \in 0..3 : \E a2 \in 0..3 : u = <<"pm", ti, a1, a2>>
+     \/ \E xs \in [1..3 -> 0..C] : \E ds \in [1..3 -> DSET] : \E m \in [1..3 -> BOOLEAN] :
+          \E ti \in 1..Len(GvTents) : u = <<"gv", xs, ds, m, ti>>
+GenNext == UNCHANGED vars
+EmitGen == PrintT(<<"GEN", ToJson([u |-> u, F |-> GenFont(u)])>>)
+
 Next == \/ /\ phase = "gen" /\ phase' = Laws(u) /\ UNCHANGED u
         \/ /\ phase = "ok"
            /\ \E c \in Cases(u) : phase' = "case" /\ u' = c
